@@ -68,7 +68,31 @@ func runCases(run *Run, cases []Case, ex Executor, cl Classifier) {
 	runCasesSkel(run, cases, ex, cl, nil)
 }
 
+// replay mode: only the runCases invocation that produced the failure runs, on the recorded ops
+var replayMode struct {
+	on     bool
+	callNo int
+	ops    []Op
+	src    string
+	sexp   string
+}
+var runCasesCallNo int
+
 func runCasesSkel(run *Run, cases []Case, ex Executor, cl Classifier, skel map[int]string) {
+	runCasesCallNo++
+	callNo := runCasesCallNo
+	if replayMode.on {
+		if callNo != replayMode.callNo {
+			return
+		}
+		ops := replayMode.ops
+		if replayMode.sexp != "" && len(ops) == 1 && ops[0].Args[0] == "prog" {
+			idx := storeProg(ProgCase{Src: replayMode.src, Sexp: replayMode.sexp, Note: "replay"})
+			ops = []Op{{Args: []string{"prog", fmt.Sprint(idx)}}}
+		}
+		cases = []Case{{Idx: 0, Ops: ops, Note: "replay"}}
+		skel = nil
+	}
 	n := len(cases)
 	lines := make([][]string, n)
 	var wg sync.WaitGroup
@@ -122,7 +146,7 @@ func runCasesSkel(run *Run, cases []Case, ex Executor, cl Classifier, skel map[i
 		if li < 0 && crash < 0 {
 			continue
 		}
-		f := Failure{CaseIdx: cases[i].Idx, LineIdx: li, Kind: kind, Note: cases[i].Note}
+		f := Failure{CaseIdx: cases[i].Idx, LineIdx: li, Kind: kind, Note: cases[i].Note, CallNo: callNo}
 		if crash >= 0 && (li < 0 || crash <= li) {
 			f.Kind, f.LineIdx, f.Line, f.Reply = "CRASH", crash, lines[i][crash], lines[i][crash]
 		} else {
@@ -140,6 +164,14 @@ func runCasesSkel(run *Run, cases []Case, ex Executor, cl Classifier, skel map[i
 			f.Lines = lines[i]
 		}
 		f.Finding = cl(&f, ops)
+		f.Ops = opsToStrings(ops)
+		if replayMode.on {
+			for k, l := range f.Lines {
+				fmt.Printf("  %s\n", l)
+				_ = k
+			}
+			fmt.Printf("  -> %s\n", f.Reply)
+		}
 		run.Failures = append(run.Failures, f)
 		_ = ops
 	}
@@ -186,7 +218,7 @@ func report(run *Run, audit *Audit, evidencePath string) int {
 		name := fmt.Sprintf("%s-seed%d-case%d", strings.ToLower(f.Kind), run.Seed, f.CaseIdx)
 		p := writeReplay(run.Prop, name, map[string]interface{}{
 			"property": run.Prop, "kind": f.Kind, "what": what, "seed": run.Seed, "case": f.CaseIdx,
-			"failing_request": f.Line, "driver_reply": f.Reply, "requests": f.Lines, "lua_source": f.Source, "note": f.Note,
+			"failing_request": f.Line, "driver_reply": f.Reply, "requests": f.Lines, "lua_source": f.Source, "sexp": f.Sexp, "note": f.Note, "ops": f.Ops, "call_no": f.CallNo,
 		})
 		if noInput {
 			fmt.Printf("VIOLATION property=%s replay=%s no-failing-input-found\n", run.Prop, p)
@@ -249,13 +281,46 @@ func main() {
 		os.Exit(2)
 	}
 	if *replay != "" {
-		os.Exit(doReplay(*prop, *replay))
+		b, err := os.ReadFile(*replay)
+		if err != nil {
+			fmt.Println(err)
+			os.Exit(2)
+		}
+		var m map[string]interface{}
+		json.Unmarshal(b, &m)
+		if ops, ok := m["ops"].([]interface{}); ok && len(ops) > 0 {
+			replayMode.on = true
+			if cn, ok := m["call_no"].(float64); ok {
+				replayMode.callNo = int(cn)
+			}
+			for _, o := range ops {
+				replayMode.ops = append(replayMode.ops, Op{Args: strings.Fields(o.(string))})
+			}
+			replayMode.src, _ = m["lua_source"].(string)
+			replayMode.sexp, _ = m["sexp"].(string)
+		} else {
+			os.Exit(doReplay(*prop, *replay))
+		}
 	}
 	run := NewRun(*prop, *tier, *seed)
 	run.Trusted = []string{"Lean 4.33 kernel", "axioms: propext, Classical.choice, Quot.sound only (audited per theorem)",
 		"tools/extract (go/ast → Lean constants)", "correspondence harness + driver canonicalisation"}
 	for _, fn := range fns {
 		fn(run)
+	}
+	if replayMode.on {
+		bad := 0
+		for _, f := range run.Failures {
+			if f.Finding == "" {
+				bad++
+			}
+		}
+		if bad > 0 {
+			fmt.Printf("VIOLATION property=%s replay=%s\n", *prop, *replay)
+			os.Exit(1)
+		}
+		fmt.Println("replay: the recorded case no longer fails on the current tree")
+		os.Exit(0)
 	}
 	audit := loadAudit(*auditPath)
 	ev := *evidence
